@@ -256,6 +256,51 @@ func run(c *mon.Ctx) {
 			c.Class(fmt.Sprintf("foreign/tag=%02x/len=%d", tag, min(len(body), 5)))
 		}
 	})
+	// the PMT-level query by PID, across removals (query, remove, query again)
+	c.Stream("pmt-query-after-remove", c.N(4000, 2000000), func(i int, r *gen.Rand) {
+		p := ref.PMT{Program: 1, Version: byte(r.Intn(32)), CurrentNext: true, PCRPID: 0x100}
+		n := 2 + r.Intn(7)
+		codes := []byte{0x1b, 0x0f, 0x86, 0x03, 0x04, 0x11, 0x81, 0x87, 0x88, 0x02, 0x24, 0x15, 0x06}
+		for k := 0; k < n; k++ {
+			p.Streams = append(p.Streams, ref.ES{Type: codes[r.Intn(len(codes))], PID: 0x100 + k*7 + r.Intn(7)})
+		}
+		pay := append([]byte{0}, p.Section()...)
+		m, err := psi.NewPMT(pay)
+		c.Eval(1)
+		if err != nil || len(m.ElementaryStreams()) != n {
+			c.Fail("streamtype:pmt-setup", fmt.Sprintf("a %d-stream PMT was not decoded: %v", n, err), wit{Case: "pmt", Body: mon.Hex(pay)})
+			return
+		}
+		gone := map[int]bool{}
+		check := func(when string) bool {
+			for _, s := range p.Streams {
+				want := lags(s.Type) && !gone[s.PID]
+				if g := m.IsPidForStreamWherePresentationLagsEbp(s.PID); g != want {
+					c.Fail("streamtype:pmt-lags-by-pid-"+when, fmt.Sprintf("%s: IsPidForStreamWherePresentationLagsEbp(%#x) = %v; the stream has type %#02x (lags=%v), removed=%v", when, s.PID, g, s.Type, lags(s.Type), gone[s.PID]),
+						wit{Case: "pmt query " + when, Body: mon.Hex(pay), Detail: fmt.Sprintf("pid %#x", s.PID)})
+					return false
+				}
+			}
+			return true
+		}
+		if !check("before-removal") {
+			return
+		}
+		for round := 0; round < 2; round++ {
+			var rm []int
+			for _, s := range p.Streams {
+				if !gone[s.PID] && r.Chance(3) {
+					rm = append(rm, s.PID)
+					gone[s.PID] = true
+				}
+			}
+			m.RemoveElementaryStreams(rm)
+			if !check("after-removal") {
+				return
+			}
+		}
+		c.Class(fmt.Sprintf("pmt-query/n=%d/removed=%d", n, len(gone)))
+	})
 	c.Stream("own-tags", c.N(20000, 30000000), func(i int, r *gen.Rand) { own(c, r) })
 }
 
